@@ -7,41 +7,37 @@ import RedisGoModel.Props.EquivZSet
 
 The model stores a set as a duplicate-free LIST, a hash as an association LIST, a sorted set as an AVL TREE; the Go code stores maps
 and its own tree.  The order of the list and the shape of the tree are representation detail (Go map iteration order; a tree rebuilt
-from a snapshot has another shape).  This file proves that the detail does not leak through the commands, and says exactly where it
-does.
+from a snapshot has another shape).  This file proves that the detail does not leak through ANY command.
 
 `DbEquiv a b`: every key holds the same value up to the container's own equality (`Snap.ValEquiv`: sets and hashes as permutations,
 sorted sets with the same `ZT.members` sequence, strings/lists/streams equal) with the same deadline.
 
-FULL (all 77 entries of `Exec.cmdTable`, the empty and the unknown command; every environment; two keyspaces with the table-wide
-invariant `Exec.Global.Inv` that are `DbEquiv`):
+FULL (all 77 entries of `Exec.cmdTable`, the empty and the unknown command; every environment — any clock, any observed reply or none
+(checker mode and prediction mode), any float bits; two keyspaces with the table-wide invariant `Exec.Global.Inv` that are `DbEquiv`):
 
-* `exec_state_respects_equiv`, `prog_state_respects_equiv`: the resulting keyspaces are again `DbEquiv` and satisfy the invariant —
-  the keyspace never records the representation.
-* `driver_verdict_respects_equiv`, `verdicts_respect_equiv`: in checker mode (the implementation's reply `o` is `env.obs`, which is
-  how the differential driver runs the model) the driver's verdict `replyAgrees (canonReply name r) (canonReply name o)` is the same
-  on both keyspaces, for every command and, step by step, for every program.
-
-PARTIAL in the replies themselves (`ReprFree args`: the command is not HRANDFIELD — 76 of the 77 entries):
-
-* `exec_respects_equiv_partial`: the replies are EQUAL after the canonicalisation the driver itself applies (`canonReply`:
+* `exec_respects_equiv`: the replies are EQUAL after the canonicalisation the driver itself applies (`canonReply`:
   SMEMBERS/SUNION/SINTER/SDIFF/HKEYS/HVALS sorted, HGETALL sorted as pairs; the identity on all other commands, whose replies are
-  therefore equal as they are: `exec_reply_equal_partial`) — hence the verdict is the same against ANY comparison target (also the
-  score-normalised observation the driver uses for ZADD/ZRANGE).  `prog_respects_equiv_partial` lifts it to programs without
-  HRANDFIELD, `prog_respects_equiv_mixed` to all programs (the replies of the HRANDFIELD steps are not compared; such a step is
-  read-only and does not disturb what follows).
-* FINDING `hrandfield_leaks_representation`: HRANDFIELD without an acceptable observation (prediction mode, or a refused
-  observation) answers `hrandDefault`, a PREFIX OF THE STORED LIST — two `DbEquiv` keyspaces answer differently (kernel-evaluated
-  witness `hrandfield_witness`).  When the observed reply is acceptable the answer is the observation on both sides
-  (`hrandfield_respects_equiv_of_accepted`; acceptance is permutation-invariant: `hrandAccept_perm`); when it is refused the two
-  fallback answers differ from each other but both differ from the observation (`hrandDefault_accepted`), which is why the verdict
-  theorem is full.  The leak shows only in the "expected" text of a mismatch report and in prediction mode.
-* `Snap.commands_agree_partial` (the item C08 listed as "stated, not proved"): every `ReprFree` command answers on the keyspace
-  loaded from a snapshot as on the original one.  `Snap.commands_agree_statement_false`: the statement as it was written (ALL
-  commands, prediction mode allowed) is FALSE, by the same witness.  `Snap.restored_node_indistinguishable_partial` / `_mixed`: a
-  node restored from `Snap.encode db` answers every subsequent program like the original node (canonical replies of all
-  non-HRANDFIELD steps); `Snap.restored_node_same_verdicts` (FULL): the driver checking the restored node reaches the verdicts it
-  reaches checking the original.
+  therefore equal as they are: `exec_reply_equal`), and the resulting keyspaces are again `DbEquiv` and satisfy the invariant.
+  `exec_replies_agree`: the driver's own comparison accepts the one reply for the other.  `prog_respects_equiv`: for programs, step
+  by step.
+* corollaries kept under their own names: `exec_state_respects_equiv`, `prog_state_respects_equiv` (the keyspace never records the
+  representation); `driver_verdict_respects_equiv`, `verdicts_respect_equiv` (in checker mode the driver's verdict
+  `replyAgrees (canonReply name r) (canonReply name o)` on the observed reply `o` is the same on both keyspaces).
+* `Snap.commands_agree : Snap.commands_agree_statement` (the item C08 listed as "stated, not proved"): every command answers on the
+  keyspace loaded from a snapshot as on the original one.  `Snap.restored_node_indistinguishable`: a node restored from
+  `Snap.encode db` answers every subsequent program like the original node; `Snap.same_snapshot_same_answers`: two nodes restored
+  from snapshots of equivalent keyspaces answer alike; `Snap.restored_node_same_verdicts`: the driver checking the restored node
+  reaches the verdicts it reaches checking the original.
+
+HISTORY (a finding about the model, since repaired).  In the first version of the model HRANDFIELD without an acceptable observation
+(prediction mode, or a refused observation) answered a PREFIX OF THE STORED association list: two `DbEquiv` keyspaces answered
+differently, the table-wide theorem had to exclude HRANDFIELD (`ReprFree args`, theorems named `…_partial`), and
+`Snap.commands_agree_statement` was refuted by a kernel-evaluated witness (`hrandfield_witness`, `hrandfield_leaks_representation`,
+`commands_agree_statement_false`).  The leak was visible only in prediction mode and in the "expected" text of a mismatch report (the
+verdict theorems were full already).  It was removed by canonicalising the default: `Exec.hrandDefault` now selects from
+`Exec.hrandCanon h`, the fields in bytewise order, which is the same list for every presentation of the hash
+(`hrandCanon_eq`, by `sortBy_of_perm`), so `hrandReply_perm`/`e_hrandfield` hold and the restriction, the witnesses and the refutation
+are gone.  The examples below evaluate HRANDFIELD on the two presentations that used to be the witness.
 
 Structure (that of `C06Table`): `EquivBase` (the relation, how `checkTTL`/`put`/`del`/`setVal` act on it, "a sort of a permutation
 is the same list" for the two sorts of `canonReply`, tactics), one module per family with `CmdOk cmdX` (`CmdPerm`/`CmdPairs` for the
@@ -172,41 +168,37 @@ theorem set_entries : ∀ p ∈ setTable, EntryOk p :=
   List.forall_mem_cons.mpr ⟨.of_ok e_sunionstore, List.forall_mem_cons.mpr ⟨.of_ok e_sinterstore,
   List.forall_mem_cons.mpr ⟨.of_ok e_sdiffstore, fun _ h => nomatch h⟩⟩⟩⟩⟩⟩⟩⟩⟩⟩⟩⟩⟩⟩
 
-/-- the hash table without HRANDFIELD -/
-theorem hash_entries : ∀ p ∈ hashTable, p.1 ≠ "hrandfield" → EntryOk p :=
-  List.forall_mem_cons.mpr ⟨fun _ => .of_ok e_hset, List.forall_mem_cons.mpr ⟨fun _ => .of_ok e_hsetnx,
-  List.forall_mem_cons.mpr ⟨fun _ => .of_ok e_hget, List.forall_mem_cons.mpr ⟨fun _ => .of_ok e_hmget,
-  List.forall_mem_cons.mpr ⟨fun _ => .of_pairs (by decide +kernel) e_hgetall,
-  List.forall_mem_cons.mpr ⟨fun _ => .of_perm (by decide +kernel) (by decide +kernel) e_hkeys,
-  List.forall_mem_cons.mpr ⟨fun _ => .of_perm (by decide +kernel) (by decide +kernel) e_hvals,
-  List.forall_mem_cons.mpr ⟨fun _ => .of_ok e_hlen, List.forall_mem_cons.mpr ⟨fun _ => .of_ok e_hexists,
-  List.forall_mem_cons.mpr ⟨fun _ => .of_ok e_hstrlen, List.forall_mem_cons.mpr ⟨fun _ => .of_ok e_hdel,
-  List.forall_mem_cons.mpr ⟨fun _ => .of_ok e_hincrby, List.forall_mem_cons.mpr ⟨fun _ => .of_ok e_hincrbyfloat,
-  List.forall_mem_cons.mpr ⟨fun h => absurd rfl h, fun _ h => nomatch h⟩⟩⟩⟩⟩⟩⟩⟩⟩⟩⟩⟩⟩⟩
+theorem hash_entries : ∀ p ∈ hashTable, EntryOk p :=
+  List.forall_mem_cons.mpr ⟨.of_ok e_hset, List.forall_mem_cons.mpr ⟨.of_ok e_hsetnx,
+  List.forall_mem_cons.mpr ⟨.of_ok e_hget, List.forall_mem_cons.mpr ⟨.of_ok e_hmget,
+  List.forall_mem_cons.mpr ⟨.of_pairs (by decide +kernel) e_hgetall,
+  List.forall_mem_cons.mpr ⟨.of_perm (by decide +kernel) (by decide +kernel) e_hkeys,
+  List.forall_mem_cons.mpr ⟨.of_perm (by decide +kernel) (by decide +kernel) e_hvals,
+  List.forall_mem_cons.mpr ⟨.of_ok e_hlen, List.forall_mem_cons.mpr ⟨.of_ok e_hexists,
+  List.forall_mem_cons.mpr ⟨.of_ok e_hstrlen, List.forall_mem_cons.mpr ⟨.of_ok e_hdel,
+  List.forall_mem_cons.mpr ⟨.of_ok e_hincrby, List.forall_mem_cons.mpr ⟨.of_ok e_hincrbyfloat,
+  List.forall_mem_cons.mpr ⟨.of_ok e_hrandfield, fun _ h => nomatch h⟩⟩⟩⟩⟩⟩⟩⟩⟩⟩⟩⟩⟩⟩
 
-/-- **the covered sub-table**: every entry of `cmdTable` except HRANDFIELD -/
-theorem table_entries : ∀ p ∈ cmdTable, p.1 ≠ "hrandfield" → EntryOk p := by
-  intro p hp hne
+/-- **every entry of `cmdTable`** (all 77) -/
+theorem table_entries : ∀ p ∈ cmdTable, EntryOk p := by
+  intro p hp
   unfold cmdTable at hp
   simp only [List.mem_append, or_assoc] at hp
   rcases hp with h | h | h | h | h | h | h
   · exact string_entries p h
   · exact misc_entries p h
   · exact set_entries p h
-  · exact hash_entries p h hne
+  · exact hash_entries p h
   · exact list_entries p h
   · exact zset_entries p h
   · exact stream_entries p h
 
 /-! ### dispatch -/
 
-/-- the excluded command, as a decidable predicate on the argument vector: anything but HRANDFIELD (any letter case) -/
-def ReprFree (args : List Bytes) : Bool := lower (args.headD []) != ofStr "hrandfield"
-
 /-- the name under which the driver canonicalises the reply of `args` -/
 def cmdName (args : List Bytes) : Bytes := lower (args.headD [])
 
-theorem exec_ok (env : Env) (a b : Db) (args : List Bytes) (hs : Sim a b) (hf : ReprFree args = true) :
+theorem exec_ok (env : Env) (a b : Db) (args : List Bytes) (hs : Sim a b) :
     canonReply (cmdName args) (exec env a args).1 = canonReply (cmdName args) (exec env b args).1 ∧
     DbEquiv (exec env a args).2 (exec env b args).2 := by
   unfold exec
@@ -218,33 +210,26 @@ theorem exec_ok (env : Env) (a b : Db) (args : List Bytes) (hs : Sim a b) (hf : 
       unfold lookupCmd at hc
       obtain ⟨p, hp, rfl⟩ := Option.map_eq_some_iff.mp hc
       have hname : ofStr p.1 = lower name := by simpa using List.find?_some hp
-      have hne : p.1 ≠ "hrandfield" := by
-        intro e
-        unfold ReprFree at hf
-        simp only [List.headD_cons, ← hname, e, bne_self_eq_false] at hf
-        cases hf
-      have := table_entries p (List.mem_of_find?_eq_some hp) hne env a b (name :: rest) hs
+      have := table_entries p (List.mem_of_find?_eq_some hp) env a b (name :: rest) hs
       unfold cmdName
       rw [List.headD_cons, ← hname]
       exact this
     · exact ⟨rfl, hs.eqv⟩
 
-/-- **Representation independence of the command table** (all commands but HRANDFIELD): on two keyspaces with the table-wide
-    invariant holding the same values up to the containers' own equality, every command — under the same clock, the same observed
-    reply (checker mode) and the same float bits — gives the same canonical reply, and leaves keyspaces that again hold the same
-    values up to the containers' own equality and satisfy the invariant. -/
-theorem exec_respects_equiv_partial (env : Env) (a b : Db) (args : List Bytes) (ha : Inv a) (hb : Inv b) (h : DbEquiv a b)
-    (hf : ReprFree args = true) :
+/-- **Representation independence of the command table** (all 77 commands, the empty and the unknown command): on two keyspaces
+    with the table-wide invariant holding the same values up to the containers' own equality, every command — under the same clock,
+    the same observed reply or none (checker mode, prediction mode) and the same float bits — gives the same canonical reply, and
+    leaves keyspaces that again hold the same values up to the containers' own equality and satisfy the invariant. -/
+theorem exec_respects_equiv (env : Env) (a b : Db) (args : List Bytes) (ha : Inv a) (hb : Inv b) (h : DbEquiv a b) :
     canonReply (cmdName args) (exec env a args).1 = canonReply (cmdName args) (exec env b args).1 ∧
     DbEquiv (exec env a args).2 (exec env b args).2 ∧ Inv (exec env a args).2 ∧ Inv (exec env b args).2 :=
-  ⟨(exec_ok env a b args ⟨ha, hb, h⟩ hf).1, (exec_ok env a b args ⟨ha, hb, h⟩ hf).2, Global.exec_inv env a args ha,
+  ⟨(exec_ok env a b args ⟨ha, hb, h⟩).1, (exec_ok env a b args ⟨ha, hb, h⟩).2, Global.exec_inv env a args ha,
     Global.exec_inv env b args hb⟩
 
 /-- the driver's own comparison (`replyAgrees` after `canonReply`) accepts the one reply for the other -/
-theorem exec_replies_agree_partial (env : Env) (a b : Db) (args : List Bytes) (ha : Inv a) (hb : Inv b) (h : DbEquiv a b)
-    (hf : ReprFree args = true) :
+theorem exec_replies_agree (env : Env) (a b : Db) (args : List Bytes) (ha : Inv a) (hb : Inv b) (h : DbEquiv a b) :
     replyAgrees (canonReply (cmdName args) (exec env a args).1) (canonReply (cmdName args) (exec env b args).1) = true :=
-  replyAgrees_of_eq (exec_respects_equiv_partial env a b args ha hb h hf).1
+  replyAgrees_of_eq (exec_respects_equiv env a b args ha hb h).1
 
 /-- for a command outside the seven that list a stored order, `canonReply` is the identity: the replies are equal as they are -/
 theorem canon_id {n : Bytes} (h1 : pairedCmds.any (fun m => ofStr m == n) = false)
@@ -252,10 +237,10 @@ theorem canon_id {n : Bytes} (h1 : pairedCmds.any (fun m => ofStr m == n) = fals
   unfold canonReply
   rw [if_neg (by rw [h1]; decide), if_neg (by rw [h2]; decide)]
 
-theorem exec_reply_equal_partial (env : Env) (a b : Db) (args : List Bytes) (ha : Inv a) (hb : Inv b) (h : DbEquiv a b)
-    (hf : ReprFree args = true) (h1 : pairedCmds.any (fun m => ofStr m == cmdName args) = false)
+theorem exec_reply_equal (env : Env) (a b : Db) (args : List Bytes) (ha : Inv a) (hb : Inv b) (h : DbEquiv a b)
+    (h1 : pairedCmds.any (fun m => ofStr m == cmdName args) = false)
     (h2 : unorderedCmds.any (fun m => ofStr m == cmdName args) = false) : (exec env a args).1 = (exec env b args).1 := by
-  have := (exec_respects_equiv_partial env a b args ha hb h hf).1
+  have := (exec_respects_equiv env a b args ha hb h).1
   rwa [canon_id h1 h2, canon_id h1 h2] at this
 
 /-! ### programs -/
@@ -265,85 +250,63 @@ def canonRun : C06T.Prog → List Reply → List Reply
 | (_, args) :: rest, r :: rs => canonReply (cmdName args) r :: canonRun rest rs
 | _, _ => []
 
-/-- **for programs**: two equivalent keyspaces answer every program without HRANDFIELD with the same canonical replies, step by
-    step, and end equivalent (each step under its own clock reading, observed reply and float bits) -/
-theorem prog_respects_equiv_partial : ∀ (prog : C06T.Prog) (a b : Db), Inv a → Inv b → DbEquiv a b →
-    (∀ st ∈ prog, ReprFree st.2 = true) →
+/-- **for programs**: two equivalent keyspaces answer every program with the same canonical replies, step by step, and end
+    equivalent (each step under its own clock reading, observed reply and float bits) -/
+theorem prog_respects_equiv : ∀ (prog : C06T.Prog) (a b : Db), Inv a → Inv b → DbEquiv a b →
     canonRun prog (C06T.runProg a prog).1 = canonRun prog (C06T.runProg b prog).1 ∧
     DbEquiv (C06T.runProg a prog).2 (C06T.runProg b prog).2 ∧ Inv (C06T.runProg a prog).2 ∧ Inv (C06T.runProg b prog).2
-| [], _, _, ha, hb, h, _ => ⟨rfl, h, ha, hb⟩
-| (env, args) :: rest, a, b, ha, hb, h, hf => by
-  have h1 := exec_respects_equiv_partial env a b args ha hb h (hf _ List.mem_cons_self)
-  have ih := prog_respects_equiv_partial rest _ _ h1.2.2.1 h1.2.2.2 h1.2.1 (fun st hst => hf st (List.mem_cons_of_mem _ hst))
+| [], _, _, ha, hb, h => ⟨rfl, h, ha, hb⟩
+| (env, args) :: rest, a, b, ha, hb, h => by
+  have h1 := exec_respects_equiv env a b args ha hb h
+  have ih := prog_respects_equiv rest _ _ h1.2.2.1 h1.2.2.2 h1.2.1
   unfold C06T.runProg
   exact ⟨by simp only [canonRun, h1.1, ih.1], ih.2⟩
 
-/-! ### the keyspace part holds for ALL commands (HRANDFIELD is read-only) -/
+/-! ### corollary: the keyspace never records the representation -/
 
-abbrev StateOk (c : Cmd) : Prop := ∀ (env : Env) (a b : Db) (args : List Bytes), Sim a b → DbEquiv (c env a args).2 (c env b args).2
-
-theorem EntryOk.state {p : String × Cmd} (h : EntryOk p) : StateOk p.2 := fun env a b args hs => (h env a b args hs).2
-
-theorem hashRead_state (env : Env) {a b : Db} (k : Bytes) (body : HashT → Reply) (hs : Sim a b) :
-    DbEquiv (hashRead env a k body).2 (hashRead env b k body).2 :=
-  (e_hashRead (R := fun _ _ => True) (fun _ => trivial) env k body (fun _ _ _ => trivial) hs).2
-
-theorem hrandWithCount_state (env : Env) {a b : Db} (k c : Bytes) (wv : Bool) (hs : Sim a b) :
-    DbEquiv (hrandWithCount env a k c wv).2 (hrandWithCount env b k c wv).2 := by
-  unfold hrandWithCount
-  repeat' (first | exact hs.eqv | exact hashRead_state _ _ _ hs | split)
-
-theorem hrandfield_state : StateOk cmdHRandField := by
-  intro env a b args hs; unfold cmdHRandField
-  repeat' (first | exact hs.eqv | exact hashRead_state _ _ _ hs | exact hrandWithCount_state _ _ _ _ hs | split)
-
-theorem hash_state : ∀ p ∈ hashTable, StateOk p.2 :=
-  List.forall_mem_cons.mpr ⟨(EntryOk.of_ok (n := "") e_hset).state, List.forall_mem_cons.mpr ⟨(EntryOk.of_ok (n := "") e_hsetnx).state,
-  List.forall_mem_cons.mpr ⟨(EntryOk.of_ok (n := "") e_hget).state, List.forall_mem_cons.mpr ⟨(EntryOk.of_ok (n := "") e_hmget).state,
-  List.forall_mem_cons.mpr ⟨fun env a b args hs => (e_hgetall env a b args hs).2,
-  List.forall_mem_cons.mpr ⟨fun env a b args hs => (e_hkeys env a b args hs).2,
-  List.forall_mem_cons.mpr ⟨fun env a b args hs => (e_hvals env a b args hs).2,
-  List.forall_mem_cons.mpr ⟨(EntryOk.of_ok (n := "") e_hlen).state, List.forall_mem_cons.mpr ⟨(EntryOk.of_ok (n := "") e_hexists).state,
-  List.forall_mem_cons.mpr ⟨(EntryOk.of_ok (n := "") e_hstrlen).state, List.forall_mem_cons.mpr ⟨(EntryOk.of_ok (n := "") e_hdel).state,
-  List.forall_mem_cons.mpr ⟨(EntryOk.of_ok (n := "") e_hincrby).state, List.forall_mem_cons.mpr ⟨(EntryOk.of_ok (n := "") e_hincrbyfloat).state,
-  List.forall_mem_cons.mpr ⟨hrandfield_state, fun _ h => nomatch h⟩⟩⟩⟩⟩⟩⟩⟩⟩⟩⟩⟩⟩⟩
-
-theorem table_state : ∀ p ∈ cmdTable, StateOk p.2 := by
-  intro p hp
-  unfold cmdTable at hp
-  simp only [List.mem_append, or_assoc] at hp
-  rcases hp with h | h | h | h | h | h | h
-  · exact (string_entries p h).state
-  · exact (misc_entries p h).state
-  · exact (set_entries p h).state
-  · exact hash_state p h
-  · exact (list_entries p h).state
-  · exact (zset_entries p h).state
-  · exact (stream_entries p h).state
-
-/-- **the keyspace never records the representation** — for ALL 77 commands, HRANDFIELD included: equivalent keyspaces stay
-    equivalent (and keep the invariant) under every command -/
+/-- equivalent keyspaces stay equivalent (and keep the invariant) under every command -/
 theorem exec_state_respects_equiv (env : Env) (a b : Db) (args : List Bytes) (ha : Inv a) (hb : Inv b) (h : DbEquiv a b) :
-    DbEquiv (exec env a args).2 (exec env b args).2 ∧ Inv (exec env a args).2 ∧ Inv (exec env b args).2 := by
-  refine ⟨?_, Global.exec_inv env a args ha, Global.exec_inv env b args hb⟩
-  unfold exec
-  split
-  · exact h
-  · split
-    · rename_i c hc
-      unfold lookupCmd at hc
-      obtain ⟨p, hp, rfl⟩ := Option.map_eq_some_iff.mp hc
-      exact table_state p (List.mem_of_find?_eq_some hp) env a b _ ⟨ha, hb, h⟩
-    · exact h
+    DbEquiv (exec env a args).2 (exec env b args).2 ∧ Inv (exec env a args).2 ∧ Inv (exec env b args).2 :=
+  (exec_respects_equiv env a b args ha hb h).2
 
 /-- … and under every program -/
-theorem prog_state_respects_equiv : ∀ (prog : C06T.Prog) (a b : Db), Inv a → Inv b → DbEquiv a b →
-    DbEquiv (C06T.runProg a prog).2 (C06T.runProg b prog).2 ∧ Inv (C06T.runProg a prog).2 ∧ Inv (C06T.runProg b prog).2
-| [], _, _, ha, hb, h => ⟨h, ha, hb⟩
+theorem prog_state_respects_equiv (prog : C06T.Prog) (a b : Db) (ha : Inv a) (hb : Inv b) (h : DbEquiv a b) :
+    DbEquiv (C06T.runProg a prog).2 (C06T.runProg b prog).2 ∧ Inv (C06T.runProg a prog).2 ∧ Inv (C06T.runProg b prog).2 :=
+  (prog_respects_equiv prog a b ha hb h).2
+
+/-! ### corollary: the driver's verdict in checker mode
+
+The differential driver runs the model with the implementation's reply as `env.obs` and accepts the step when
+`replyAgrees (canonReply name r) (canonReply name obs)`.  The canonical replies are equal, so the verdict is the same whatever the
+reply is compared with. -/
+
+/-- with the implementation's reply `o` as the observation, the driver's verdict is the same on two equivalent keyspaces -/
+theorem driver_verdict_respects_equiv (env : Env) (a b : Db) (args : List Bytes) (o : Reply) (ha : Inv a) (hb : Inv b)
+    (h : DbEquiv a b) (_ho : env.obs = some o) :
+    replyAgrees (canonReply (cmdName args) (exec env a args).1) (canonReply (cmdName args) o) =
+      replyAgrees (canonReply (cmdName args) (exec env b args).1) (canonReply (cmdName args) o) ∧
+    DbEquiv (exec env a args).2 (exec env b args).2 ∧ Inv (exec env a args).2 ∧ Inv (exec env b args).2 :=
+  ⟨by rw [(exec_respects_equiv env a b args ha hb h).1], exec_state_respects_equiv env a b args ha hb h⟩
+
+/-- the verdicts of a checked run: one per step that carries an observation (a step without one has nothing to compare) -/
+def verdicts : Db → C06T.Prog → List Bool
+| _, [] => []
+| db, (env, args) :: rest =>
+  (match env.obs with
+    | some o => replyAgrees (canonReply (cmdName args) (exec env db args).1) (canonReply (cmdName args) o)
+    | none => true) :: verdicts (exec env db args).2 rest
+
+/-- **for programs**: a checked run gives the same verdicts, step by step, from two equivalent keyspaces -/
+theorem verdicts_respect_equiv : ∀ (prog : C06T.Prog) (a b : Db), Inv a → Inv b → DbEquiv a b → verdicts a prog = verdicts b prog
+| [], _, _, _, _, _ => rfl
 | (env, args) :: rest, a, b, ha, hb, h => by
-  have h1 := exec_state_respects_equiv env a b args ha hb h
-  unfold C06T.runProg
-  exact prog_state_respects_equiv rest _ _ h1.2.1 h1.2.2 h1.1
+  have hst := exec_state_respects_equiv env a b args ha hb h
+  have ih := verdicts_respect_equiv rest _ _ hst.2.1 hst.2.2 hst.1
+  unfold verdicts
+  rw [ih]
+  cases ho : env.obs with
+  | none => rfl
+  | some o => simp only [(driver_verdict_respects_equiv env a b args o ha hb h ho).1]
 
 /-! ### the relation is not equality, and the hypotheses are satisfiable -/
 
@@ -391,196 +354,30 @@ example : replyEq (exec { now := 0 } exA [ofStr "HGETALL", [104]]).1 (exec { now
   decide +kernel
 example : canonReply (cmdName [ofStr "HGETALL", [104]]) (exec { now := 0 } exA [ofStr "HGETALL", [104]]).1 =
     canonReply (cmdName [ofStr "HGETALL", [104]]) (exec { now := 0 } exB [ofStr "HGETALL", [104]]).1 :=
-  (exec_respects_equiv_partial _ _ _ _ exA_inv exB_inv exAB_equiv (by decide +kernel)).1
+  (exec_respects_equiv _ _ _ _ exA_inv exB_inv exAB_equiv).1
 
-/-! ### FINDING: HRANDFIELD leaks the representation when it falls back to its default answer -/
+/-! ### HRANDFIELD in prediction mode on the two presentations (the former witness of the leak) -/
 
 def hrandArgs : List Bytes := [ofStr "HRANDFIELD", [104]]
 
-/-- the canonical replies differ: `exA` answers its first stored field `f`, `exB` its first stored field `g` -/
-theorem hrandfield_witness :
-    replyAgrees (canonReply (cmdName hrandArgs) (exec { now := 0 } exA hrandArgs).1)
-      (canonReply (cmdName hrandArgs) (exec { now := 0 } exB hrandArgs).1) = false := by
+/-- `exA` stores the field `f` first, `exB` the field `g`; both answer the bytewise smallest field `f` (in the first version of the
+    model, where the default answer was the first STORED field, this evaluated to `false`) -/
+theorem hrandfield_example :
+    replyEq (exec { now := 0 } exA hrandArgs).1 (bulk [102]) = true ∧ replyEq (exec { now := 0 } exB hrandArgs).1 (bulk [102]) = true := by
   decide +kernel
 
-/-- **the excluded command is excluded for a reason**: two keyspaces with the invariant, holding the same values up to the
-    containers' own equality, on which HRANDFIELD (no observed reply: prediction mode, or a refused observation) gives different
-    canonical replies.  The model's `hrandDefault` takes a prefix of the stored association list. -/
-theorem hrandfield_leaks_representation : ∃ (env : Env) (a b : Db) (args : List Bytes), Inv a ∧ Inv b ∧ DbEquiv a b ∧
-    ReprFree args = false ∧ canonReply (cmdName args) (exec env a args).1 ≠ canonReply (cmdName args) (exec env b args).1 := by
-  refine ⟨{ now := 0 }, exA, exB, hrandArgs, exA_inv, exB_inv, exAB_equiv, by decide +kernel, fun h => ?_⟩
-  have := replyAgrees_of_eq h
-  rw [hrandfield_witness] at this
-  cases this
+/-- … with a count and WITHVALUES, positive and negative -/
+example : replyEq (exec { now := 0 } exA [ofStr "HRANDFIELD", [104], ofStr "5", ofStr "WITHVALUES"]).1
+      (exec { now := 0 } exB [ofStr "HRANDFIELD", [104], ofStr "5", ofStr "WITHVALUES"]).1 = true ∧
+    replyEq (exec { now := 0 } exA [ofStr "HRANDFIELD", [104], ofStr "-3"]).1 (bulks [[102], [102], [102]]) = true ∧
+    replyEq (exec { now := 0 } exB [ofStr "HRANDFIELD", [104], ofStr "-3"]).1 (bulks [[102], [102], [102]]) = true := by
+  decide +kernel
 
-/-- with an acceptable observation HRANDFIELD is representation-free: the shared read skeleton with the HRANDFIELD body answers the
-    observation itself on both sides (acceptance is decided by lookups and the length, which do not depend on the presentation) -/
-theorem hrandfield_respects_equiv_of_accepted (env : Env) (a b : Db) (k : Bytes) (count : Option Int) (wv : Bool) (hs : Sim a b)
-    (o : Reply) (ho : env.obs = some o)
-    (hacc : ∀ h, getHash (checkTTL a env.now k).1 k = some (some h) → hrandAccept h count wv o = true) :
-    Res (hashRead env a k fun h => hrandReply env.obs h count wv) (hashRead env b k fun h => hrandReply env.obs h count wv) := by
-  unfold hashRead
-  obtain ⟨a', b', x, hca, hcb, hs'⟩ := hs.ttl env.now k
-  rw [hca] at hacc
-  simp only [hca, hcb]
-  rcases getHash_cases hs' k with ⟨ha, hb⟩ | ⟨ha, hb⟩ | ⟨h, h', ha, hb, hr⟩ <;> simp only [ha, hb]
-  · exact ⟨rfl, hs'.eqv⟩
-  · exact ⟨rfl, hs'.eqv⟩
-  · rw [ho]
-    exact ⟨hrandReply_perm_of_accepted ⟨hr.1, hr.2.1, hr.2.2.1⟩ count wv o (hacc h ha), hs'.eqv⟩
-
-/-! ### the FULL table in checker mode: the driver's verdict on the observed reply never depends on the representation
-
-The differential driver runs the model with the implementation's reply as `env.obs` and accepts the step when
-`replyAgrees (canonReply name r) (canonReply name obs)`.  For the `ReprFree` commands the canonical replies are equal, so the verdict
-is the same whatever it is compared with.  For HRANDFIELD: an acceptable observation is answered by itself on both sides; a refused
-one is answered by the fallback `hrandDefault`, which depends on the presentation but is itself an acceptable answer
-(`hrandDefault_accepted`) and therefore different from the refused observation on both sides — the verdict is "disagree" on both. -/
-
-/-- a refused observation is not matched by the fallback answer -/
-theorem hrandDefault_disagrees {h : HashT} (ok : HashSel.Ok h) (count : Option Int) (wv : Bool) {o : Reply}
-    (hn : hrandAccept h count wv o = false) : replyAgrees (hrandDefault h count wv) o = false := by
-  cases hv : replyAgrees (hrandDefault h count wv) o with
-  | false => rfl
-  | true =>
-    rcases replyAgrees_true_cases hv with ⟨e, he⟩ | he
-    · exact absurd he (hrandDefault_not_err h count wv e)
-    · rw [← he, hrandDefault_accepted ok] at hn; cases hn
-
-theorem hrandReply_verdict {h h' : HashT} (hr : HashP h h') (count : Option Int) (wv : Bool) (o : Reply) :
-    replyAgrees (hrandReply (some o) h count wv) o = replyAgrees (hrandReply (some o) h' count wv) o := by
-  unfold hrandReply
-  simp only
-  rw [← hrandAccept_perm hr]
-  cases hacc : hrandAccept h count wv o with
-  | true => simp only [if_true]
-  | false =>
-    simp only [Bool.false_eq_true, if_false]
-    rw [hrandDefault_disagrees hr.2.1 count wv hacc,
-      hrandDefault_disagrees hr.2.2 count wv (by rw [← hrandAccept_perm hr]; exact hacc)]
-
-/-- same verdict against `o`, equivalent keyspaces -/
-def VerdictRes (o : Reply) (x y : Reply × Db) : Prop := replyAgrees x.1 o = replyAgrees y.1 o ∧ DbEquiv x.2 y.2
-
-theorem hrandRead_verdict (env : Env) {a b : Db} (k : Bytes) (count : Option Int) (wv : Bool) (hs : Sim a b) (o : Reply)
-    (ho : env.obs = some o) :
-    VerdictRes o (hashRead env a k fun h => hrandReply env.obs h count wv) (hashRead env b k fun h => hrandReply env.obs h count wv) := by
-  rw [ho]
-  exact e_hashRead (R := fun r r' => replyAgrees r o = replyAgrees r' o) (fun _ => rfl) env k _
-    (fun h h' hr => hrandReply_verdict hr count wv o) hs
-
-theorem hrandWithCount_verdict (env : Env) {a b : Db} (k c : Bytes) (wv : Bool) (hs : Sim a b) (o : Reply) (ho : env.obs = some o) :
-    VerdictRes o (hrandWithCount env a k c wv) (hrandWithCount env b k c wv) := by
-  unfold hrandWithCount
-  repeat' (first | exact ⟨rfl, hs.eqv⟩ | exact hrandRead_verdict _ _ _ _ hs o ho | split)
-
-theorem cmdHRandField_verdict (env : Env) (a b : Db) (args : List Bytes) (hs : Sim a b) (o : Reply) (ho : env.obs = some o) :
-    VerdictRes o (cmdHRandField env a args) (cmdHRandField env b args) := by
-  unfold cmdHRandField
-  repeat' (first | exact ⟨rfl, hs.eqv⟩ | exact hrandRead_verdict _ _ _ _ hs o ho | exact hrandWithCount_verdict _ _ _ _ hs o ho | split)
-
-/-- a table entry in checker mode: the same verdict on the observed reply, equivalent keyspaces -/
-def VerdictOk (p : String × Cmd) : Prop := ∀ (env : Env) (a b : Db) (args : List Bytes) (o : Reply), Sim a b → env.obs = some o →
-  replyAgrees (canonReply (ofStr p.1) (p.2 env a args).1) (canonReply (ofStr p.1) o) =
-    replyAgrees (canonReply (ofStr p.1) (p.2 env b args).1) (canonReply (ofStr p.1) o) ∧
-  DbEquiv (p.2 env a args).2 (p.2 env b args).2
-
-theorem EntryOk.verdict {p : String × Cmd} (h : EntryOk p) : VerdictOk p := fun env a b args o hs _ =>
-  ⟨by rw [(h env a b args hs).1], (h env a b args hs).2⟩
-
-theorem hrandfield_verdict : VerdictOk ("hrandfield", cmdHRandField) := by
-  intro env a b args o hs ho
-  have hid := canon_id (n := ofStr "hrandfield") (by decide +kernel) (by decide +kernel)
-  simp only [hid]
-  exact cmdHRandField_verdict env a b args hs o ho
-
-theorem hash_verdict : ∀ p ∈ hashTable, VerdictOk p := by
-  intro p hp
-  by_cases h : p.1 = "hrandfield"
-  · simp only [hashTable, List.mem_cons, List.mem_nil_iff, or_false] at hp
-    rcases hp with rfl | rfl | rfl | rfl | rfl | rfl | rfl | rfl | rfl | rfl | rfl | rfl | rfl | rfl <;>
-      first | exact hrandfield_verdict | exact absurd h (by decide)
-  · exact (hash_entries p hp h).verdict
-
-/-- all 77 entries -/
-theorem table_verdict : ∀ p ∈ cmdTable, VerdictOk p := by
-  intro p hp
-  unfold cmdTable at hp
-  simp only [List.mem_append, or_assoc] at hp
-  rcases hp with h | h | h | h | h | h | h
-  · exact (string_entries p h).verdict
-  · exact (misc_entries p h).verdict
-  · exact (set_entries p h).verdict
-  · exact hash_verdict p h
-  · exact (list_entries p h).verdict
-  · exact (zset_entries p h).verdict
-  · exact (stream_entries p h).verdict
-
-/-- **Representation independence of the whole command table in checker mode** (all 77 commands, the empty and the unknown
-    command): with the implementation's reply `o` as the observation, the driver's verdict
-    `replyAgrees (canonReply name r) (canonReply name o)` is the same on two keyspaces that hold the same values up to the
-    containers' own equality, and the resulting keyspaces are again equivalent and satisfy the invariant. -/
-theorem driver_verdict_respects_equiv (env : Env) (a b : Db) (args : List Bytes) (o : Reply) (ha : Inv a) (hb : Inv b)
-    (h : DbEquiv a b) (ho : env.obs = some o) :
-    replyAgrees (canonReply (cmdName args) (exec env a args).1) (canonReply (cmdName args) o) =
-      replyAgrees (canonReply (cmdName args) (exec env b args).1) (canonReply (cmdName args) o) ∧
-    DbEquiv (exec env a args).2 (exec env b args).2 ∧ Inv (exec env a args).2 ∧ Inv (exec env b args).2 := by
-  refine ⟨?_, exec_state_respects_equiv env a b args ha hb h⟩
-  unfold exec
-  split
-  · rfl
-  · rename_i name rest
-    split
-    · rename_i c hc
-      unfold lookupCmd at hc
-      obtain ⟨p, hp, rfl⟩ := Option.map_eq_some_iff.mp hc
-      have hname : ofStr p.1 = lower name := by simpa using List.find?_some hp
-      have := (table_verdict p (List.mem_of_find?_eq_some hp) env a b (name :: rest) o ⟨ha, hb, h⟩ ho).1
-      unfold cmdName
-      rw [List.headD_cons, ← hname]
-      exact this
-    · rfl
-
-/-- the verdicts of a checked run: one per step that carries an observation (a step without one has nothing to compare) -/
-def verdicts : Db → C06T.Prog → List Bool
-| _, [] => []
-| db, (env, args) :: rest =>
-  (match env.obs with
-    | some o => replyAgrees (canonReply (cmdName args) (exec env db args).1) (canonReply (cmdName args) o)
-    | none => true) :: verdicts (exec env db args).2 rest
-
-/-- **for programs, all commands**: a checked run gives the same verdicts, step by step, from two equivalent keyspaces -/
-theorem verdicts_respect_equiv : ∀ (prog : C06T.Prog) (a b : Db), Inv a → Inv b → DbEquiv a b → verdicts a prog = verdicts b prog
-| [], _, _, _, _, _ => rfl
-| (env, args) :: rest, a, b, ha, hb, h => by
-  have hst := exec_state_respects_equiv env a b args ha hb h
-  have ih := verdicts_respect_equiv rest _ _ hst.2.1 hst.2.2 hst.1
-  unfold verdicts
-  rw [ih]
-  cases ho : env.obs with
-  | none => rfl
-  | some o => simp only [(driver_verdict_respects_equiv env a b args o ha hb h ho).1]
-
-/-- the canonical replies of the `ReprFree` steps of a run (an HRANDFIELD step contributes a placeholder) -/
-def canonRunFree : C06T.Prog → List Reply → List Reply
-| (_, args) :: rest, r :: rs => (if ReprFree args then canonReply (cmdName args) r else .bulk none) :: canonRunFree rest rs
-| _, _ => []
-
-/-- **for programs with HRANDFIELD steps interleaved**: every reply of every other step agrees, and the final keyspaces are
-    equivalent (an HRANDFIELD step does not disturb what follows: it is read-only) -/
-theorem prog_respects_equiv_mixed : ∀ (prog : C06T.Prog) (a b : Db), Inv a → Inv b → DbEquiv a b →
-    canonRunFree prog (C06T.runProg a prog).1 = canonRunFree prog (C06T.runProg b prog).1 ∧
-    DbEquiv (C06T.runProg a prog).2 (C06T.runProg b prog).2 ∧ Inv (C06T.runProg a prog).2 ∧ Inv (C06T.runProg b prog).2
-| [], _, _, ha, hb, h => ⟨rfl, h, ha, hb⟩
-| (env, args) :: rest, a, b, ha, hb, h => by
-  have hst := exec_state_respects_equiv env a b args ha hb h
-  have ih := prog_respects_equiv_mixed rest _ _ hst.2.1 hst.2.2 hst.1
-  unfold C06T.runProg
-  refine ⟨?_, ih.2⟩
-  simp only [canonRunFree, ih.1]
-  cases hf : ReprFree args with
-  | false => rfl
-  | true => simp only [if_true, (exec_respects_equiv_partial env a b args ha hb h hf).1]
+/-- HRANDFIELD is outside the seven commands whose reply `canonReply` sorts: its replies are equal as they are, in every environment -/
+theorem hrandfield_reply_equal (env : Env) (a b : Db) (rest : List Bytes) (ha : Inv a) (hb : Inv b) (h : DbEquiv a b) :
+    (exec env a (ofStr "HRANDFIELD" :: rest)).1 = (exec env b (ofStr "HRANDFIELD" :: rest)).1 :=
+  have e : cmdName (ofStr "HRANDFIELD" :: rest) = lower (ofStr "HRANDFIELD") := rfl
+  exec_reply_equal env a b _ ha hb h (by rw [e]; decide +kernel) (by rw [e]; decide +kernel)
 
 end Exec.Equiv
 
@@ -588,7 +385,7 @@ end Exec.Equiv
 namespace Snap
 open Exec (Db Entry Value)
 open Exec.Global (Inv GoodValue)
-open Exec.Equiv (DbEquiv ReprFree cmdName)
+open Exec.Equiv (DbEquiv cmdName)
 
 theorem canonVal_good (v : Value) (hg : GoodValue v) : GoodValue (canonVal v) := by
   cases v with
@@ -631,16 +428,20 @@ theorem canon_inv (db : Db) (hi : Inv db) : Inv (canon db) := by
 
 theorem canon_dbEquiv (db : Db) (hi : Inv db) : DbEquiv (canon db) db := canon_equiv db hi
 
-/-- **every command but HRANDFIELD answers on the keyspace restored from a snapshot as on the original one** (after `canonReply`),
-    and leaves equivalent keyspaces: the C08 item that was "stated, not proved", for the `ReprFree` commands -/
-theorem commands_agree_partial (env : Exec.Env) (db : Db) (args : List Bytes) (hi : Inv db) (hf : ReprFree args = true) :
-    Exec.replyAgrees (Exec.canonReply (Exec.lower (args.headD [])) (Exec.exec env (canon db) args).1)
-      (Exec.canonReply (Exec.lower (args.headD [])) (Exec.exec env db args).1) = true ∧
-    DbEquiv (Exec.exec env (canon db) args).2 (Exec.exec env db args).2 :=
-  ⟨Exec.Equiv.exec_replies_agree_partial env (canon db) db args (canon_inv db hi) hi (canon_dbEquiv db hi) hf,
-    (Exec.Equiv.exec_respects_equiv_partial env (canon db) db args (canon_inv db hi) hi (canon_dbEquiv db hi) hf).2.1⟩
+/-- **every command answers on the keyspace restored from a snapshot as on the original one** (after `canonReply`): the C08 item
+    that was "stated, not proved" — `commands_agree_statement` itself, all commands, checker mode and prediction mode -/
+theorem commands_agree : commands_agree_statement := fun env db args hi _ =>
+  Exec.Equiv.exec_replies_agree env (canon db) db args (canon_inv db hi) hi (canon_dbEquiv db hi)
 
-/-- a hash whose stored order is not the snapshot's (field) order -/
+/-- … with equal canonical replies and equivalent resulting keyspaces -/
+theorem commands_agree_state (env : Exec.Env) (db : Db) (args : List Bytes) (hi : Inv db) :
+    Exec.canonReply (cmdName args) (Exec.exec env (canon db) args).1 = Exec.canonReply (cmdName args) (Exec.exec env db args).1 ∧
+    DbEquiv (Exec.exec env (canon db) args).2 (Exec.exec env db args).2 :=
+  ⟨(Exec.Equiv.exec_respects_equiv env (canon db) db args (canon_inv db hi) hi (canon_dbEquiv db hi)).1,
+    (Exec.Equiv.exec_respects_equiv env (canon db) db args (canon_inv db hi) hi (canon_dbEquiv db hi)).2.1⟩
+
+/-- a hash whose stored order is not the snapshot's (field) order: the keyspace that refuted `commands_agree_statement` in the first
+    version of the model -/
 def cexDb : Db := [([104], { val := .hash [([103], [50]), ([102], [49])] })]
 
 theorem cexDb_inv : Inv cexDb := by
@@ -650,78 +451,69 @@ theorem cexDb_inv : Inv cexDb := by
   subst hp
   exact ⟨by unfold HashSel.Ok; decide, by decide⟩
 
-/-- **`commands_agree_statement` as it was written (ALL commands) is false**: HRANDFIELD in prediction mode answers the first stored
-    field, and the snapshot reorders the fields -/
-theorem commands_agree_statement_false : ¬ commands_agree_statement := by
-  intro h
-  have := h { now := 0 } cexDb Exec.Equiv.hrandArgs cexDb_inv (by unfold Bounded; decide)
-  have hf : Exec.replyAgrees (Exec.canonReply (Exec.lower (Exec.Equiv.hrandArgs.headD []))
+/-- HRANDFIELD in prediction mode on that keyspace and on its snapshot image: the snapshot reorders the fields, the answers agree
+    (kernel-evaluated; also an instance of `commands_agree`) -/
+example : Exec.replyAgrees (Exec.canonReply (Exec.lower (Exec.Equiv.hrandArgs.headD []))
       (Exec.exec { now := 0 } (canon cexDb) Exec.Equiv.hrandArgs).1)
-      (Exec.canonReply (Exec.lower (Exec.Equiv.hrandArgs.headD [])) (Exec.exec { now := 0 } cexDb Exec.Equiv.hrandArgs).1) = false := by
-    decide +kernel
-  rw [hf] at this
-  cases this
+    (Exec.canonReply (Exec.lower (Exec.Equiv.hrandArgs.headD [])) (Exec.exec { now := 0 } cexDb Exec.Equiv.hrandArgs).1) = true := by
+  decide +kernel
+
+example : Exec.replyAgrees (Exec.canonReply (Exec.lower (Exec.Equiv.hrandArgs.headD []))
+      (Exec.exec { now := 0 } (canon cexDb) Exec.Equiv.hrandArgs).1)
+    (Exec.canonReply (Exec.lower (Exec.Equiv.hrandArgs.headD [])) (Exec.exec { now := 0 } cexDb Exec.Equiv.hrandArgs).1) = true :=
+  commands_agree _ cexDb _ cexDb_inv (by unfold Bounded; decide)
 
 /-- **a node restored from a snapshot is indistinguishable from the original**: loading `encode db` succeeds, and the restored node
-    answers every subsequent program without HRANDFIELD with the same canonical replies, step by step, as the node that took the
-    snapshot, and ends in an equivalent keyspace -/
-theorem restored_node_indistinguishable_partial (db : Db) (hi : Inv db) (hb : Bounded db) (prog : Exec.C06T.Prog)
-    (hf : ∀ st ∈ prog, ReprFree st.2 = true) :
+    answers every subsequent program (all commands; each step in checker or prediction mode) with the same canonical replies, step
+    by step, as the node that took the snapshot, and ends in an equivalent keyspace -/
+theorem restored_node_indistinguishable (db : Db) (hi : Inv db) (hb : Bounded db) (prog : Exec.C06T.Prog) :
     ∃ db', decode (encode db) = some db' ∧
       Exec.Equiv.canonRun prog (Exec.C06T.runProg db' prog).1 = Exec.Equiv.canonRun prog (Exec.C06T.runProg db prog).1 ∧
       DbEquiv (Exec.C06T.runProg db' prog).2 (Exec.C06T.runProg db prog).2 := by
   refine ⟨canon db, decode_encode db hi hb, ?_⟩
-  have := Exec.Equiv.prog_respects_equiv_partial prog (canon db) db (canon_inv db hi) hi (canon_dbEquiv db hi) hf
+  have := Exec.Equiv.prog_respects_equiv prog (canon db) db (canon_inv db hi) hi (canon_dbEquiv db hi)
   exact ⟨this.1, this.2.1⟩
 
-/-- … with HRANDFIELD steps interleaved: all other replies agree -/
-theorem restored_node_indistinguishable_mixed (db : Db) (hi : Inv db) (hb : Bounded db) (prog : Exec.C06T.Prog) :
-    ∃ db', decode (encode db) = some db' ∧
-      Exec.Equiv.canonRunFree prog (Exec.C06T.runProg db' prog).1 = Exec.Equiv.canonRunFree prog (Exec.C06T.runProg db prog).1 ∧
-      DbEquiv (Exec.C06T.runProg db' prog).2 (Exec.C06T.runProg db prog).2 := by
-  refine ⟨canon db, decode_encode db hi hb, ?_⟩
-  have := Exec.Equiv.prog_respects_equiv_mixed prog (canon db) db (canon_inv db hi) hi (canon_dbEquiv db hi)
-  exact ⟨this.1, this.2.1⟩
-
-/-- **checker mode, all commands**: the differential driver, checking a node restored from a snapshot against any observed run,
-    reaches exactly the verdicts it reaches checking the original node -/
+/-- **checker mode**: the differential driver, checking a node restored from a snapshot against any observed run, reaches exactly
+    the verdicts it reaches checking the original node -/
 theorem restored_node_same_verdicts (db : Db) (hi : Inv db) (hb : Bounded db) (prog : Exec.C06T.Prog) :
     ∃ db', decode (encode db) = some db' ∧ Exec.Equiv.verdicts db' prog = Exec.Equiv.verdicts db prog :=
   ⟨canon db, decode_encode db hi hb,
     Exec.Equiv.verdicts_respect_equiv prog (canon db) db (canon_inv db hi) hi (canon_dbEquiv db hi)⟩
 
-/-- two nodes restored from the same bytes are indistinguishable from each other as well -/
-theorem same_snapshot_same_answers_partial (a b : Db) (ha : Inv a) (hb : Inv b) (h : DbEquiv a b) (prog : Exec.C06T.Prog)
-    (hf : ∀ st ∈ prog, ReprFree st.2 = true) :
+/-- two nodes restored from snapshots of equivalent keyspaces (in particular from the same bytes) are indistinguishable from each
+    other as well -/
+theorem same_snapshot_same_answers (a b : Db) (ha : Inv a) (hb : Inv b) (h : DbEquiv a b) (prog : Exec.C06T.Prog) :
     Exec.Equiv.canonRun prog (Exec.C06T.runProg (canon a) prog).1 = Exec.Equiv.canonRun prog (Exec.C06T.runProg (canon b) prog).1 :=
-  (Exec.Equiv.prog_respects_equiv_partial prog (canon a) (canon b) (canon_inv a ha) (canon_inv b hb)
-    (((canon_dbEquiv a ha).trans h).trans (canon_dbEquiv b hb).symm) hf).1
+  (Exec.Equiv.prog_respects_equiv prog (canon a) (canon b) (canon_inv a ha) (canon_inv b hb)
+    (((canon_dbEquiv a ha).trans h).trans (canon_dbEquiv b hb).symm)).1
 
 example : ∃ db', decode (encode exDb) = some db' ∧
     Exec.Equiv.canonRun [] (Exec.C06T.runProg db' []).1 = Exec.Equiv.canonRun [] (Exec.C06T.runProg exDb []).1 ∧
     DbEquiv (Exec.C06T.runProg db' []).2 (Exec.C06T.runProg exDb []).2 :=
-  restored_node_indistinguishable_partial exDb exDb_inv exDb_bounded [] (fun _ h => nomatch h)
+  restored_node_indistinguishable exDb exDb_inv exDb_bounded []
 
 end Snap
 
-#print axioms Exec.Equiv.exec_respects_equiv_partial
-#print axioms Exec.Equiv.exec_replies_agree_partial
-#print axioms Exec.Equiv.exec_reply_equal_partial
-#print axioms Exec.Equiv.prog_respects_equiv_partial
+#print axioms Exec.Equiv.exec_respects_equiv
+#print axioms Exec.Equiv.exec_replies_agree
+#print axioms Exec.Equiv.exec_reply_equal
+#print axioms Exec.Equiv.prog_respects_equiv
 #print axioms Exec.Equiv.table_entries
 #print axioms Exec.Equiv.exec_state_respects_equiv
 #print axioms Exec.Equiv.prog_state_respects_equiv
 #print axioms Exec.Equiv.driver_verdict_respects_equiv
 #print axioms Exec.Equiv.verdicts_respect_equiv
-#print axioms Exec.Equiv.prog_respects_equiv_mixed
+#print axioms Exec.Equiv.hrandCanon_eq
+#print axioms Exec.Equiv.hrandDefault_perm
 #print axioms Exec.Equiv.hrandDefault_accepted
-#print axioms Exec.Equiv.hrandfield_witness
-#print axioms Exec.Equiv.hrandfield_leaks_representation
-#print axioms Exec.Equiv.hrandfield_respects_equiv_of_accepted
+#print axioms Exec.Equiv.hrandReply_perm
+#print axioms Exec.Equiv.e_hrandfield
+#print axioms Exec.Equiv.hrandfield_example
+#print axioms Exec.Equiv.hrandfield_reply_equal
 #print axioms Snap.canon_inv
-#print axioms Snap.commands_agree_partial
-#print axioms Snap.commands_agree_statement_false
-#print axioms Snap.restored_node_indistinguishable_partial
-#print axioms Snap.restored_node_indistinguishable_mixed
+#print axioms Snap.commands_agree
+#print axioms Snap.commands_agree_state
+#print axioms Snap.restored_node_indistinguishable
 #print axioms Snap.restored_node_same_verdicts
-#print axioms Snap.same_snapshot_same_answers_partial
+#print axioms Snap.same_snapshot_same_answers
